@@ -37,6 +37,8 @@ struct Bh {
     /// finished call futures are kept alive until the explorer drops them (join!, select! on
     /// &mut fut): a finished call must not go on holding its slot
     keep_done: bool,
+    /// the first inner call panics synchronously inside call() (no future is ever returned)
+    sync_panic_first: bool,
 }
 
 struct X {
@@ -88,7 +90,7 @@ impl Scenario for Bh {
         self.prop
     }
     fn label(&self) -> String {
-        format!("bulkhead max={} max_wait={:?} callers={}{}{}", self.max, self.max_wait, self.callers, if self.late_ticks > 0 { " late-polls" } else { "" }, if self.shave_us > 0 { format!(" minus {}us", self.shave_us) } else if self.single_handle { " one-handle".to_string() } else if self.keep_done { " finished-futures-kept".to_string() } else { String::new() })
+        format!("bulkhead max={} max_wait={:?} callers={}{}{}", self.max, self.max_wait, self.callers, if self.late_ticks > 0 { " late-polls" } else { "" }, if self.shave_us > 0 { format!(" minus {}us", self.shave_us) } else if self.single_handle { " one-handle".to_string() } else if self.keep_done { " finished-futures-kept".to_string() } else if self.sync_panic_first { " first-inner-call-panics-in-call()".to_string() } else { String::new() })
     }
     fn callers(&self) -> usize {
         self.callers
@@ -110,6 +112,9 @@ impl Scenario for Bh {
             Some(ms) => b.max_wait_duration(Duration::from_micros(ms * 1000 - self.shave_us)),
         };
         let layer = b.build();
+        if self.sync_panic_first {
+            w.inner.lock().unwrap().sync_panic_calls = vec![0];
+        }
         let svc = layer.layer(GatedInner::new(w.inner.clone()));
         X { svc, first_poll_pre: None, w_release_and_timeout: false, completes_at: vec![] }
     }
@@ -286,8 +291,9 @@ impl Scenario for Bh {
                 }
             }
         }
-        if started[self.max] || w.inner_live() > self.max {
-            out.push(Viol::new("over_admission", site, format!("after drain, {} probe callers all reached the inner service (max {})", self.max + 1, self.max)));
+        // (a probe call that panicked inside call() reached the inner service but is not inside it)
+        if w.inner_live() > self.max {
+            out.push(Viol::new("over_admission", site, format!("after drain, {} of {} probe callers are inside the inner service at once (max {})", w.inner_live(), self.max + 1, self.max)));
         }
         // clean up probes (keeps the runtime drop quiet)
         for c in base..w.callers.len() {
@@ -318,30 +324,35 @@ fn configs(prop: &'static str, tier: Tier) -> Vec<Bh> {
                 single_handle: false,
                 grid: 10,
                 keep_done: false,
+                sync_panic_first: false,
             });
         }
     }
     // a wait in the seconds range (2.02 s, explored on a 1.01 s grid): whole seconds plus a
     // sub-second part
-    v.push(Bh { prop, max: 1, max_wait: Some(2020), callers: 3, max_ticks: tier.pick(3, 4), max_drops: 1, max_panics: 0, late_ticks: 0, shave_us: 0, single_handle: false, grid: 1010, keep_done: false });
+    v.push(Bh { prop, max: 1, max_wait: Some(2020), callers: 3, max_ticks: tier.pick(3, 4), max_drops: 1, max_panics: 0, late_ticks: 0, shave_us: 0, single_handle: false, grid: 1010, keep_done: false, sync_panic_first: false });
+    // the first inner call panics inside call() itself
+    for max_wait in [None, Some(20u64)] {
+        v.push(Bh { prop, max: 1, max_wait, callers: 3, max_ticks: tier.pick(2, 3), max_drops: 1, max_panics: 0, late_ticks: 0, shave_us: 0, single_handle: false, grid: 10, keep_done: false, sync_panic_first: true });
+    }
     // finished futures stay alive until dropped explicitly
     for max_wait in [None, Some(20u64)] {
-        v.push(Bh { prop, max: 1, max_wait, callers: 3, max_ticks: tier.pick(2, 3), max_drops: tier.pick(2, 3), max_panics: 0, late_ticks: 0, shave_us: 0, single_handle: false, grid: 10, keep_done: true });
+        v.push(Bh { prop, max: 1, max_wait, callers: 3, max_ticks: tier.pick(2, 3), max_drops: tier.pick(2, 3), max_panics: 0, late_ticks: 0, shave_us: 0, single_handle: false, grid: 10, keep_done: true, sync_panic_first: false });
     }
     // all callers through the one original handle (no clone alive between calls)
     for max_wait in [None, Some(20u64)] {
-        v.push(Bh { prop, max: 1, max_wait, callers: 3, max_ticks: tier.pick(3, 4), max_drops: 1, max_panics: 0, late_ticks: 0, shave_us: 0, single_handle: true, grid: 10, keep_done: false });
+        v.push(Bh { prop, max: 1, max_wait, callers: 3, max_ticks: tier.pick(3, 4), max_drops: 1, max_panics: 0, late_ticks: 0, shave_us: 0, single_handle: true, grid: 10, keep_done: false, sync_panic_first: false });
     }
     // waits with a sub-millisecond part: 0.5 ms and 19.75 ms
     for (max_wait, shave_us) in [(1u64, 500u64), (20, 250)] {
-        v.push(Bh { prop, max: 1, max_wait: Some(max_wait), callers: 3, max_ticks: tier.pick(3, 4), max_drops: 1, max_panics: 0, late_ticks: 0, shave_us, single_handle: false, grid: 10, keep_done: false });
+        v.push(Bh { prop, max: 1, max_wait: Some(max_wait), callers: 3, max_ticks: tier.pick(3, 4), max_drops: 1, max_panics: 0, late_ticks: 0, shave_us, single_handle: false, grid: 10, keep_done: false, sync_panic_first: false });
     }
     // a late executor: woken callers (permit handed over, wait deadline passed) are polled up to two ticks late
     for (max, max_wait) in [(1usize, Some(20u64)), (1, None), (2, Some(20))] {
         if tier == Tier::Quick && max == 2 {
             continue;
         }
-        v.push(Bh { prop, max, max_wait, callers: 3, max_ticks: tier.pick(4, 5), max_drops: tier.pick(1, 2), max_panics: tier.pick(0, 1), late_ticks: 2, shave_us: 0, single_handle: false, grid: 10, keep_done: false });
+        v.push(Bh { prop, max, max_wait, callers: 3, max_ticks: tier.pick(4, 5), max_drops: tier.pick(1, 2), max_panics: tier.pick(0, 1), late_ticks: 2, shave_us: 0, single_handle: false, grid: 10, keep_done: false, sync_panic_first: false });
     }
     v
 }
